@@ -12,6 +12,7 @@ package diff
 //@   ghost pos map[int]int              // pos[e] = first position of indices covered by entry e
 //@   entry ghost pos[0] = 0
 //@   assigns nothing
+//@   ensures result != nil                 // an empty list must serialise as [] (not null): the delta has to survive JSON
 //@   ensures pos[0] == 0 && pos[len(result)] == len(indices)
 //@   ensures forall e int :: { result[e] } 0 <= e && e < len(result) ==> pos[e] < pos[e+1] && covers(result[e], indices, pos[e], pos[e+1])
 //@   loop 1 invariant 0 <= i && i <= len(indices) && fresh(compressed)
